@@ -36,23 +36,26 @@ const ErrTrigger = "p1:13"
 // panics (NodeTerms.tla): user code that crashes on a valid parameter value.
 const PanicTrigger = "p1:66"
 
-func (d HData) Process() (string, error) {
-	d.Ctr.Execs[d.ID]++
+func (d HData) Process() (string, error) { return processTerm(d.ID, d.Ctr, d.A, d.B, d.Arr) }
+
+// processTerm is the harness processor shared by every port layout.
+func processTerm(id int, ctr *Counters, dA, dB nodes.NodeOutput[string], dArr []nodes.NodeOutput[string]) (string, error) {
+	ctr.Execs[id]++
 	var sb strings.Builder
-	sb.WriteString("n" + strconv.Itoa(d.ID) + "(")
-	if d.A == nil {
+	sb.WriteString("n" + strconv.Itoa(id) + "(")
+	if dA == nil {
 		sb.WriteString("-")
 	} else {
-		a := d.A.Value()
+		a := dA.Value()
 		if a == PanicTrigger {
 			panic("harness processor: input " + a + " crashes this node")
 		}
 		if a == ErrTrigger {
 			// still read every input, as the contract of the harness processors says
-			if d.B != nil {
-				_ = d.B.Value()
+			if dB != nil {
+				_ = dB.Value()
 			}
-			for _, e := range d.Arr {
+			for _, e := range dArr {
 				if e != nil {
 					_ = e.Value()
 				}
@@ -62,13 +65,13 @@ func (d HData) Process() (string, error) {
 		sb.WriteString(a)
 	}
 	sb.WriteString(",")
-	if d.B == nil {
+	if dB == nil {
 		sb.WriteString("-")
 	} else {
-		sb.WriteString(d.B.Value())
+		sb.WriteString(dB.Value())
 	}
 	sb.WriteString(",[")
-	for i, e := range d.Arr {
+	for i, e := range dArr {
 		if i > 0 {
 			sb.WriteString(";")
 		}
@@ -80,6 +83,82 @@ func (d HData) Process() (string, error) {
 	}
 	sb.WriteString("])")
 	return sb.String(), nil
+}
+
+// The port LAYOUT of a node is invisible to the contract (NodeGraph.tla talks about ports a, b and the
+// array arr): field names, and with them the place of the array port among the single ports in any
+// name-ordered or map-ordered traversal the library makes, are a dimension the property quantifies
+// over.  HData has the array between the single ports, HDataLast behind them, HDataFirst in front.
+type HDataLast struct {
+	ID     int
+	Ctr    *Counters
+	Offset nodes.NodeOutput[string]
+	Scale  nodes.NodeOutput[string]
+	Terms  []nodes.NodeOutput[string]
+}
+
+func (d HDataLast) Process() (string, error) {
+	return processTerm(d.ID, d.Ctr, d.Offset, d.Scale, d.Terms)
+}
+
+type HDataFirst struct {
+	ID    int
+	Ctr   *Counters
+	Zeta  nodes.NodeOutput[string]
+	Yota  nodes.NodeOutput[string]
+	Elems []nodes.NodeOutput[string]
+}
+
+func (d HDataFirst) Process() (string, error) {
+	return processTerm(d.ID, d.Ctr, d.Zeta, d.Yota, d.Elems)
+}
+
+// hnode is a node of the harness graph under any layout; ports are addressed in the model's names
+// ("A", "B", "Arr.<k>").
+type hnode interface {
+	SetInput(port string, o nodes.Output)
+	Version() int
+	Value() string
+	Out() nodes.NodeOutputReference
+	ArrLen() int
+}
+
+type lnode[G nodes.StructProcesor[string]] struct {
+	n     *nodes.Struct[string, G]
+	names [3]string
+	alen  func(G) int
+}
+
+func (l *lnode[G]) SetInput(port string, o nodes.Output) {
+	switch {
+	case port == "A":
+		port = l.names[0]
+	case port == "B":
+		port = l.names[1]
+	case strings.HasPrefix(port, "Arr."):
+		port = l.names[2] + port[3:]
+	}
+	l.n.SetInput(port, o)
+}
+func (l *lnode[G]) Version() int                   { return l.n.Version() }
+func (l *lnode[G]) Value() string                  { return l.n.Value() }
+func (l *lnode[G]) Out() nodes.NodeOutputReference { return l.n.Out() }
+func (l *lnode[G]) ArrLen() int                    { return l.alen(l.n.Data) }
+
+// NLayouts port layouts rotate over the repetitions of a history (together with the parameter kinds).
+const NLayouts = 3
+
+func newHNode(layout, id int, ctr *Counters) hnode {
+	switch layout % NLayouts {
+	case 1:
+		return &lnode[HDataLast]{n: &nodes.Struct[string, HDataLast]{Data: HDataLast{ID: id, Ctr: ctr}},
+			names: [3]string{"Offset", "Scale", "Terms"}, alen: func(d HDataLast) int { return len(d.Terms) }}
+	case 2:
+		return &lnode[HDataFirst]{n: &nodes.Struct[string, HDataFirst]{Data: HDataFirst{ID: id, Ctr: ctr}},
+			names: [3]string{"Zeta", "Yota", "Elems"}, alen: func(d HDataFirst) int { return len(d.Elems) }}
+	}
+	return &lnode[HData]{n: &nodes.Struct[string, HData]{Data: HData{ID: id, Ctr: ctr}},
+		names: [3]string{"A", "B", "Arr"}, alen: func(d HData) int { return len(d.Arr) }}
 }
 
 type HNode = nodes.Struct[string, HData]
@@ -121,11 +200,12 @@ type NGStep struct {
 }
 
 type NGHistory struct {
-	NP    int      `json:"np"`
-	NN    int      `json:"nn"`
-	Steps []NGStep `json:"steps"`
-	Tag   string   `json:"tag,omitempty"`
-	Kinds []int    `json:"kinds,omitempty"` // fixed parameter kinds (replays); default: rotate per repetition
+	NP     int      `json:"np"`
+	NN     int      `json:"nn"`
+	Steps  []NGStep `json:"steps"`
+	Tag    string   `json:"tag,omitempty"`
+	Kinds  []int    `json:"kinds,omitempty"`  // fixed parameter kinds (replays); default: rotate per repetition
+	Layout int      `json:"layout,omitempty"` // fixed port layout + 1 (replays); default: rotate
 }
 
 type ngObs struct {
@@ -170,7 +250,8 @@ type ngGraph struct {
 	held   map[int][]string // the slice handed to pD[p] last
 	sets   map[int]int
 	join   map[int]*JoinNode
-	ns     map[int]*HNode
+	ns     map[int]hnode
+	layout int
 	ctr    *Counters
 }
 
@@ -180,14 +261,14 @@ func sliceTerm(p, v int) []string { return []string{"p" + strconv.Itoa(p), strco
 
 func paramTerm(p, v int) string { return "p" + strconv.Itoa(p) + ":" + strconv.Itoa(v) }
 
-func newNGGraph(np, nn int, kinds []int) *ngGraph {
+func newNGGraph(np, nn int, kinds []int, layout int) *ngGraph {
 	if len(kinds) == 0 {
 		kinds = []int{1, 2}
 	}
 	g := &ngGraph{np: np, nn: nn, kinds: kinds, pA: map[int]*parameter.Value[string]{}, pB: map[int]*nodes.ValueNode[string]{},
 		pC: map[int]*parameter.Value[[]string]{}, pD: map[int]*nodes.ValueNode[[]string]{}, held: map[int][]string{},
 		sets: map[int]int{}, join: map[int]*JoinNode{},
-		ns: map[int]*HNode{}, ctr: &Counters{Execs: map[int]int{}}}
+		ns: map[int]hnode{}, layout: layout, ctr: &Counters{Execs: map[int]int{}}}
 	for p := 1; p <= np; p++ {
 		switch g.kind(p) {
 		case 1:
@@ -206,7 +287,7 @@ func newNGGraph(np, nn int, kinds []int) *ngGraph {
 		}
 	}
 	for n := np + 1; n <= np+nn; n++ {
-		g.ns[n] = &HNode{Data: HData{ID: n, Ctr: g.ctr}}
+		g.ns[n] = newHNode(layout, n, g.ctr)
 	}
 	return g
 }
@@ -291,13 +372,13 @@ func (g *ngGraph) obs() ngObs {
 	return o
 }
 
-func runNG(enc *json.Encoder, h int, hist NGHistory, kinds []int) {
+func runNG(enc *json.Encoder, h int, hist NGHistory, kinds []int, layout int) {
 	var g *ngGraph
 	for i, st := range hist.Steps {
 		ln := ngLine{H: h, I: i, S: st.S}
 		switch st.Op {
 		case "init":
-			g = newNGGraph(hist.NP, hist.NN, kinds)
+			g = newNGGraph(hist.NP, hist.NN, kinds, layout)
 			for _, w := range st.Wire {
 				if w.A != 0 {
 					g.wire(w.N, "A", w.A)
@@ -321,7 +402,7 @@ func runNG(enc *json.Encoder, h int, hist NGHistory, kinds []int) {
 			g.wire(st.N, st.Port, st.S)
 			ln.K, ln.N, ln.Port = "wire", st.N, st.Port
 		case "arradd":
-			g.wire(st.N, "Arr."+strconv.Itoa(len(g.ns[st.N].Data.Arr)), st.S)
+			g.wire(st.N, "Arr."+strconv.Itoa(g.ns[st.N].ArrLen()), st.S)
 			ln.K, ln.N = "arradd", st.N
 		case "arrdel":
 			g.wire(st.N, "Arr."+strconv.Itoa(st.K-1), 0)
@@ -425,7 +506,13 @@ func RunNodeGraph(in, out string, reps, procs, from, to int) error {
 			if len(hist.Kinds) > 0 {
 				kinds = hist.Kinds
 			}
-			runNG(enc, h, hist, kinds)
+			// so is the port layout of the nodes: it rotates with the history AND the repetition, so that every
+			// history meets at least two layouts and neighbouring histories different ones
+			layout := (h + r) % NLayouts
+			if hist.Layout > 0 {
+				layout = hist.Layout - 1
+			}
+			runNG(enc, h, hist, kinds, layout)
 		}
 		h++
 	}
